@@ -211,7 +211,16 @@ var (
 func toUpperUnderscore(ident string) string {
 	ident = leadingOrTrailing_.ReplaceAllString(ident, "")
 	ident = consecutive_.ReplaceAllString(ident, "${1}_${2}")
-	ident = wordBoundary1.ReplaceAllString(ident, "${1}_${2}")
+	// (the official pattern is zero-width; here a match consumes the letter in
+	// front of the boundary, so that letter cannot also be the one in front of
+	// the next boundary: isAtEnd needs a second pass to become IS_AT_END.)
+	for {
+		var next = wordBoundary1.ReplaceAllString(ident, "${1}_${2}")
+		if next == ident {
+			break
+		}
+		ident = next
+	}
 	ident = wordBoundary2.ReplaceAllString(ident, "${1}_${2}")
 	ident = wordBoundary3.ReplaceAllString(ident, "${1}_${2}")
 	return strings.ToUpper(ident)
